@@ -128,4 +128,33 @@ PROPS = {
             {"run": rules_reply.run_uninitctx, "floor": 2, "use_anchor_files": True},
         ],
     },
+    "C17": {
+        "explanation": "CURSOR: every advance of an iovec cursor in the message functions is paired with a decrement of its element count and happens only while the count is "
+                       "non-zero (interval fact at the advance, or a dominating branch on the count's decrement; the position-walk idiom is accepted by shape). "
+                       "DECWRAP: no loop condition pre-decrements an unsigned count that may be zero. PROGRESS: every loop changes something one of its exit conditions reads.",
+        "not_decided": "equality with the flat computation (positions, counts, copied bytes) for every way of cutting the data",
+        "assumptions": [],
+        "technique": "interval analysis at cursor advances + dominator/pairing checks + syntactic loop variants",
+        "level_text": "Decides that the fragment cursor never leaves the fragment list and every loop terminates on its own exit test, for all 10 message files; not the value equivalence.",
+        "level_note": "companion count inferred from struct message fields (cont/clen), locals loaded from them, or the integer parameter following an iovec parameter",
+        "rules": [
+            {"run": rules_path.run_cursor, "floor": 6, "use_anchor_files": True},
+            {"run": rules_path.run_decwrap, "floor": 1, "use_anchor_files": True},
+            {"run": rules_path.run_progress, "floor": 15, "use_anchor_files": True},
+        ],
+    },
+    "C03": {
+        "explanation": "PROGRESS: every loop of the frame decoders, mpt_message_read and the queue receive/peek functions changes something one of its exit conditions reads, so "
+                       "each decoder call terminates for every byte string and segmentation. CURSOR: the source iovec cursor is only advanced after a successful "
+                       "`if (!count--) return` test, i.e. never past the sourcelen elements the caller passed.",
+        "not_decided": "byte-level bounds of the in-place decode (dst <= src, proc accounting), honesty of the delivered message, rejection of malformed input; a mutant that only breaks the proc bookkeeping is invisible here",
+        "assumptions": [],
+        "technique": "syntactic loop variants + dominator pairing of cursor advance and count test",
+        "level_text": "Termination and 'source cursor stays inside the caller's fragment list' for every decoder loop; nothing about the decoded bytes.",
+        "level_note": "the destination cursor (dvec) has no separate count: its bound is the relational invariant stated in the source comment and is not decided",
+        "rules": [
+            {"run": rules_path.run_progress, "floor": 15, "use_anchor_files": True},
+            {"run": rules_path.run_cursor, "floor": 6, "use_anchor_files": True},
+        ],
+    },
 }
